@@ -18,14 +18,17 @@ import (
 )
 
 func init() {
-	addRound4("C12", "(B1) in the region of ProcessAccessRules every address block that was parsed successfully (net.ParseCIDR / netip.ParsePrefix) is put into the target's rule set on every path that goes on to the next element or returns without an error - stored into the rules field directly, through a helper or a method of the rule set, or appended to a list that is carried round the loop and stored afterwards; a block may be left out only where the code decides on the block's WIDTH (its Mask / prefix length, or the whole block as text: whether an earlier block makes this one redundant depends on both widths, the network address alone cannot tell) or where the list is known to be an allow list (leaving a block out of an allow list only narrows access); a configured deny block that never reaches the rule set admits every address inside it.", runC12B1, c12B1Mutants()...)
-	addRound4("C12", "(B2) in the region of ProcessAccessRules the failure edge of a parse of the configured text (net.ParseCIDR / netip.ParsePrefix answering an error, net.ParseIP / netip.ParseAddr answering no address) leads to a return with an error (which F2 turns into deny-all), to the installation of a deny-all rule set, or to another parse of the same text - never to the next element or to a return without error: a deny list from which the unparsable element was silently dropped is wider than the configured one ('a rule that cannot be parsed never widens access').", runC12B2, c12B2Mutants()...)
+	addRound4("C12", "(B1) in the region of ProcessAccessRules every address block that was parsed successfully (net.ParseCIDR / netip.ParsePrefix) is put into the target's rule set on every path that goes on to the next element or returns without an error - stored into the rules field directly, through a helper, a method, a method value, a func literal or an interface method (every implementation), or appended to a list that is carried round the loop and stored afterwards; a struct that carries the one block from the step that parses to the step that stores (`return accessItem{tag, block}, nil`) hands the obligation to its receiver, path by path; a block rebuilt from the parsed one (normalised, netip.Prefix converted to *net.IPNet) counts as the parsed one; the builder may live in a package of its own; a block may be left out only where the code decides on the block's WIDTH (its Mask / prefix length, or the whole block as text: whether an earlier block makes this one redundant depends on both widths, the network address alone cannot tell) or where the list is known to be an allow list (leaving a block out of an allow list only narrows access); a configured deny block that never reaches the rule set admits every address inside it.", runC12B1, c12B1Mutants()...)
+	addRound4("C12", "(B2) in the region of ProcessAccessRules the failure edge of a parse of the configured text (net.ParseCIDR / netip.ParsePrefix answering an error, net.ParseIP / netip.ParseAddr answering no address) leads to a return with an error (which F2 turns into deny-all), to the installation of a deny-all rule set, or to another parse of the same text - never to the next element or to a return without error; where the failing path ends in a helper's `return ..., <error>` the same is asked of the branches on that error in the helper's callers, up to ProcessAccessRules itself (an error that no caller looks at is a dropped element); the failure may travel round the loop in a variable (`if failed == nil { failed = err }; continue`) when that variable is what is returned in the end: a deny list from which the unparsable element was silently dropped is wider than the configured one ('a rule that cannot be parsed never widens access').", runC12B2, c12B2Mutants()...)
 }
 
 // ---- roles ------------------------------------------------------------------------------------------------------------
 
 func c12IsBlockType(t types.Type) bool {
-	switch typeStr(t) {
+	if p, ok := types.Unalias(t).(*types.Pointer); ok {
+		t = types.NewPointer(types.Unalias(p.Elem()))
+	}
+	switch typeStr(types.Unalias(t)) {
 	case "*net.IPNet", "net.IPNet", "net/netip.Prefix":
 		return true
 	}
@@ -82,6 +85,26 @@ func c12Refs(v ssa.Value) []ssa.Instruction {
 	return nil
 }
 
+func c12Deref(t types.Type) types.Type {
+	if p, ok := t.Underlying().(*types.Pointer); ok {
+		return p.Elem()
+	}
+	return t
+}
+
+// c12IsScalar: a value of type t cannot hold an address block (string, number, bool).
+func c12IsScalar(t types.Type) bool {
+	_, ok := t.Underlying().(*types.Basic)
+	return ok
+}
+
+// c12IsStructCell: a is the cell of a local struct value that is not itself an address block.
+func c12IsStructCell(a *ssa.Alloc) bool {
+	t := c12Deref(a.Type())
+	_, ok := t.Underlying().(*types.Struct)
+	return ok && !c12IsBlockType(t)
+}
+
 // ---- forward flow -------------------------------------------------------------------------------------------------------
 
 // c12CellLoads: the loads of the local cell a, also inside the closures that capture it.
@@ -107,27 +130,97 @@ func c12CellLoads(a ssa.Value) []ssa.Value {
 
 // c12PlainCallee: the repository function with a body that the call enters with its arguments as written (no wrapper).
 func c12PlainCallee(cc *ssa.CallCommon) *ssa.Function {
-	if cc == nil || cc.IsInvoke() {
+	g, off := c12CalleeOff(cc)
+	if off != 0 {
 		return nil
+	}
+	return g
+}
+
+// c12CalleeOff: the repository function with a body that the call enters, and the offset of its parameters against
+// the arguments of the call: 0 for a plain call (also of a closure and of a method expression `(*T).m`), 1 for a call
+// of a method value (`add := t.addBlock; add(tag, b)`: the receiver is bound, argument k is parameter k+1).
+func c12CalleeOff(cc *ssa.CallCommon) (*ssa.Function, int) {
+	if cc == nil || cc.IsInvoke() {
+		return nil, 0
 	}
 	sc := cc.StaticCallee()
-	if sc == nil || !isRepoFn(sc) || len(sc.Blocks) == 0 || unwrap(sc) != sc || len(sc.Params) != len(cc.Args) {
+	if sc == nil {
+		return nil, 0
+	}
+	g := unwrap(sc)
+	if g == nil || !isRepoFn(g) || len(g.Blocks) == 0 {
+		return nil, 0
+	}
+	off := len(g.Params) - len(cc.Args)
+	if g == sc && off != 0 {
+		return nil, 0
+	}
+	if off != 0 && !(off == 1 && strings.HasPrefix(sc.Synthetic, "bound method wrapper")) {
+		return nil, 0
+	}
+	return g, off
+}
+
+type c12Callee struct {
+	fn  *ssa.Function
+	off int
+}
+
+// c12Cur: the context of the running rule (for the method sets an interface call can reach).
+var c12Cur *Ctx
+
+// c12Callees: the repository functions the call can enter, each with the offset of its parameters against the call's
+// arguments: the static callee; for a call through an interface the repository methods of that name whose receiver
+// implements the interface; for a call of a function value the functions that value can denote (funcsOf: a local
+// closure variable, a method value kept in a variable or a struct member, a callback parameter's visible feeds).
+func c12Callees(cc *ssa.CallCommon) []c12Callee {
+	if cc == nil {
 		return nil
 	}
-	return sc
+	if g, off := c12CalleeOff(cc); g != nil {
+		return []c12Callee{{g, off}}
+	}
+	var out []c12Callee
+	if cc.IsInvoke() {
+		iface, ok := cc.Value.Type().Underlying().(*types.Interface)
+		if !ok || c12Cur == nil {
+			return nil
+		}
+		for _, f := range c12Cur.AllFns {
+			recv := f.Signature.Recv()
+			if recv == nil || f.Name() != cc.Method.Name() || len(f.Blocks) == 0 || !isRepoFn(f) || len(f.Params) != len(cc.Args)+1 {
+				continue
+			}
+			if types.Implements(recv.Type(), iface) {
+				out = append(out, c12Callee{f, 1})
+			}
+		}
+		return out
+	}
+	if cc.StaticCallee() != nil {
+		return nil
+	}
+	for _, g := range funcsOf(cc.Value) {
+		if g == nil || !isRepoFn(g) || len(g.Blocks) == 0 {
+			continue
+		}
+		if off := len(g.Params) - len(cc.Args); off == 0 || (off == 1 && g.Signature.Recv() != nil) {
+			out = append(out, c12Callee{g, off})
+		}
+	}
+	return out
 }
 
 // c12ParamsFor: the parameters of the repository callee that receive v at this call.
 func c12ParamsFor(ci ssa.CallInstruction, v ssa.Value) []ssa.Value {
 	cc := ci.Common()
-	sc := c12PlainCallee(cc)
-	if sc == nil {
-		return nil
-	}
 	var out []ssa.Value
-	for k, a := range cc.Args {
-		if a == v {
-			out = append(out, sc.Params[k])
+	for _, ce := range c12Callees(cc) {
+		for k, a := range cc.Args {
+			if a == v && k+ce.off < len(ce.fn.Params) {
+				out = append(out, ce.fn.Params[k+ce.off])
+			}
 		}
 	}
 	return out
@@ -231,6 +324,63 @@ func c12IdentClosure(seeds []ssa.Value) map[ssa.Value]bool {
 	return is
 }
 
+// c12AddDerived: a block that is REBUILT from the parsed one is the parsed one as far as "does it reach the rule set" goes:
+// `&net.IPNet{IP: b.IP.Mask(b.Mask), Mask: b.Mask}` (normalised), `p.Masked()`, a netip.Prefix converted to a
+// *net.IPNet (`&net.IPNet{IP: p.Addr().AsSlice(), Mask: net.CIDRMask(p.Bits(), ...)}`). Adds to `is` every value of a
+// block type that a library call computes from a value in `is`, and every block-typed cell a member of which is
+// written with something computed from a value in `is` (members read, library calls, conversions; no repository calls).
+func c12AddDerived(is map[ssa.Value]bool) {
+	for round := 0; round < 3; round++ {
+		seen := map[ssa.Value]bool{}
+		var work []ssa.Value
+		for v := range is {
+			work = append(work, v)
+		}
+		var found []ssa.Value
+		for len(work) > 0 && len(seen) < 600 {
+			v := work[len(work)-1]
+			work = work[:len(work)-1]
+			if v == nil || seen[v] {
+				continue
+			}
+			seen[v] = true
+			for _, r := range c12Refs(v) {
+				switch x := r.(type) {
+				case *ssa.Field, *ssa.FieldAddr, *ssa.Slice, *ssa.Convert, *ssa.ChangeType, *ssa.Phi, *ssa.Extract, *ssa.Index, *ssa.IndexAddr:
+					work = append(work, x.(ssa.Value))
+				case *ssa.UnOp:
+					if x.Op == token.MUL {
+						work = append(work, x)
+					}
+				case *ssa.Call:
+					if sc := x.Call.StaticCallee(); sc == nil || isRepoFn(sc) {
+						continue
+					}
+					work = append(work, x)
+				case *ssa.Store:
+					if x.Val != v {
+						continue
+					}
+					if fa, ok := x.Addr.(*ssa.FieldAddr); ok && c12IsBlockType(c12Deref(fa.X.Type())) && !is[fa.X] {
+						found = append(found, fa.X)
+					}
+				}
+			}
+			if !is[v] && c12IsBlockType(v.Type()) {
+				if call, ok := v.(*ssa.Call); ok && call.Call.StaticCallee() != nil {
+					found = append(found, v)
+				}
+			}
+		}
+		if len(found) == 0 {
+			return
+		}
+		for w := range c12IdentClosure(found) {
+			is[w] = true
+		}
+	}
+}
+
 // c12IsCollector: a call whose result contains its arguments (append, slices.Insert / Concat / Grow ...).
 func c12IsCollector(cc *ssa.CallCommon) bool {
 	n := c12BaseName(calleeName(cc))
@@ -259,10 +409,24 @@ func c12ContainNext(v ssa.Value) []ssa.Value {
 				out = append(out, a.X)
 			case *ssa.FieldAddr:
 				out = append(out, a.X)
+			case *ssa.Alloc:
+				// a struct value kept in a local cell: its members are read through the cell's address
+				if c12IsStructCell(a) {
+					out = append(out, a)
+				}
 			}
 		case *ssa.MapUpdate:
 			if x.Value == v {
 				out = append(out, x.Map)
+			}
+		// reading a member back out of a struct that carries the block (or a list of blocks) from one step to the next
+		case *ssa.Field:
+			if x.X == v && !c12IsScalar(x.Type()) {
+				out = append(out, x)
+			}
+		case *ssa.FieldAddr:
+			if x.X == v && !c12IsScalar(c12Deref(x.Type())) {
+				out = append(out, x)
 			}
 		// reading an element back out of a container (the blocks parsed in a first pass are stored in a second one)
 		case *ssa.IndexAddr:
@@ -377,8 +541,27 @@ type c12Obl struct {
 	subs   map[string]bool
 	budget int
 	blown  bool
+	// member: struct values (their cells, pointers to them) that hold the block itself as a member - an item that
+	// carries one parsed element from the step that parses to the step that stores - as opposed to lists of blocks
+	member map[ssa.Value]bool
 	// mode "fail": the obligation of B2 (the path must end in an error); the value plays no part
 	fail bool
+	// failSubj: the values whose nil-ness IS the failure (the parse's error / address, wherever it was handed to);
+	// failNil: failing means the subject is nil. An edge that states the contrary is not part of a failing path.
+	failSubj map[ssa.Value]bool
+	failNil  bool
+	// carrying (B2): the path has gone round the loop with the failure kept in a variable: another parse is no second chance
+	carrying bool
+	// errRets: the returns with a certainly non-nil error at which failing paths ended (B2 goes on in the callers)
+	errRets []*ssa.Return
+}
+
+// promote: v is the block (read back out of an item that carries it): it and everything that is v joins `is`.
+func (o *c12Obl) promote(v ssa.Value) {
+	for w := range c12IdentClosure([]ssa.Value{v}) {
+		o.is[w] = true
+	}
+	c12AddDerived(o.is)
 }
 
 func (o *c12Obl) exit(pos token.Pos, what string) {
@@ -484,6 +667,9 @@ func (o *c12Obl) walk(sb *ssa.BasicBlock, si int, origin ssa.Value, held0 map[ss
 				for k, p := range s.Preds {
 					if p == it.b && k < len(phi.Edges) && held[phi.Edges[k]] {
 						h2[phi] = true
+						if o.member[phi.Edges[k]] {
+							o.member[phi] = true
+						}
 					}
 				}
 			}
@@ -518,6 +704,9 @@ func (o *c12Obl) carried(p, s *ssa.BasicBlock, held map[ssa.Value]bool) bool {
 // edge on which the parsed block is nil, and an edge on which the list is known to be an allow list.
 func (o *c12Obl) pruned(f Fact, origin ssa.Value) bool {
 	x, cons := c12ConsOfFact(f.Cond, f.Truth)
+	if o.fail && !o.carrying && cons.kind == 'n' && o.failSubj[x] && cons.eq != o.failNil {
+		return true // `if err == nil { ... }` further down a path on which err is not nil
+	}
 	if !o.fail {
 		if cons.kind == 'n' && !cons.eq && c12IsErrorType(x.Type()) && origin != nil {
 			if ex, ok := x.(*ssa.Extract); ok && ex.Tuple == origin {
@@ -572,18 +761,33 @@ func (o *c12Obl) instr(i ssa.Instruction, held map[ssa.Value]bool, sb *ssa.Basic
 			return true
 		}
 		var base ssa.Value
+		whole := false
 		switch a := x.Addr.(type) {
 		case *ssa.IndexAddr:
 			base = a.X
 		case *ssa.FieldAddr:
 			base = a.X
 		case *ssa.Alloc:
-			base = a
+			base, whole = a, true
 		case *ssa.FreeVar:
-			base = a
+			base, whole = a, true
 		}
 		if base == nil {
 			return false
+		}
+		if whole && o.is[x.Val] && !held[x.Val] {
+			// the block kept in a local variable's cell (a variable that a func literal captures): the loads of the cell
+			// are the block already (identity closure); the cell itself is no part of the rule set
+			return false
+		}
+		if _, isElem := x.Addr.(*ssa.IndexAddr); !isElem && !c12IsBlockType(c12Deref(base.Type())) {
+			// the block itself becomes a member of a struct (or such a struct is copied as a whole): an item, not a list;
+			// where it goes is followed on the paths, a cell declared early does not make it part of the rule set
+			if (!whole && (o.is[x.Val] || o.member[x.Val])) || (whole && o.member[x.Val]) {
+				o.member[base] = true
+				held[base] = true
+				return false
+			}
 		}
 		if c12Persistent(base, sb, si) && o.b.reaches(base) {
 			o.sunk = true
@@ -616,8 +820,33 @@ func (o *c12Obl) instr(i ssa.Instruction, held map[ssa.Value]bool, sb *ssa.Basic
 			held[x] = true
 		}
 	case *ssa.UnOp:
-		if x.Op == token.MUL && held[x.X] {
+		if x.Op == token.MUL && held[x.X] && !c12IsScalar(x.Type()) {
+			if fa, ok := x.X.(*ssa.FieldAddr); ok && o.member[fa.X] && c12IsBlockType(x.Type()) {
+				o.promote(x) // the block read back out of the item
+				return false
+			}
 			held[x] = true
+			if o.member[x.X] {
+				o.member[x] = true
+			}
+		}
+	case *ssa.FieldAddr:
+		if held[x.X] && !c12IsScalar(c12Deref(x.Type())) {
+			held[x] = true
+			if _, nested := c12Deref(x.Type()).Underlying().(*types.Struct); nested && o.member[x.X] && !c12IsBlockType(c12Deref(x.Type())) {
+				o.member[x] = true
+			}
+		}
+	case *ssa.Field:
+		if held[x.X] && !c12IsScalar(x.Type()) {
+			if o.member[x.X] && c12IsBlockType(x.Type()) {
+				o.promote(x)
+				return false
+			}
+			held[x] = true
+			if _, nested := x.Type().Underlying().(*types.Struct); nested && o.member[x.X] {
+				o.member[x] = true
+			}
 		}
 	case *ssa.IndexAddr:
 		if held[x.X] {
@@ -660,14 +889,26 @@ func (o *c12Obl) instr(i ssa.Instruction, held map[ssa.Value]bool, sb *ssa.Basic
 			}
 			return false
 		}
-		if g := c12PlainCallee(cc); g != nil {
-			for k, a := range cc.Args {
-				if in(a) && o.b.reaches(g.Params[k]) {
-					// the callee is to store it: the obligation goes on at the callee's entry
-					o.sub(g, k, held[a], depth)
-					return true
-				}
+		ces := c12Callees(cc)
+		for k, a := range cc.Args {
+			if !in(a) || len(ces) == 0 {
+				continue
 			}
+			all := true
+			for _, ce := range ces {
+				all = all && k+ce.off < len(ce.fn.Params) && o.b.reaches(ce.fn.Params[k+ce.off])
+			}
+			if !all {
+				continue
+			}
+			// the callee (every function the call can enter) is to store it: the obligation goes on at the callee's entry
+			for _, ce := range ces {
+				if o.member[a] {
+					o.member[ce.fn.Params[k+ce.off]] = true
+				}
+				o.sub(ce.fn, k+ce.off, held[a], depth)
+			}
+			return true
 		}
 	}
 	return false
@@ -682,7 +923,7 @@ func (o *c12Obl) ret(x *ssa.Return, held map[ssa.Value]bool, pos token.Pos, dept
 	for j, res := range x.Results {
 		if res != nil && (o.is[res] || held[res]) {
 			handed = true
-			o.handUp(fn, j, len(x.Results), held[res], depth)
+			o.handUp(fn, j, len(x.Results), held[res], held[res] && o.member[res], depth)
 		}
 	}
 	if handed {
@@ -727,25 +968,64 @@ func c12NonNilDeep(v ssa.Value, depth int) bool {
 		}
 		return len(x.Edges) > 0
 	case *ssa.Call:
-		sc := x.Call.StaticCallee()
-		if sc == nil || !isRepoFn(sc) || len(sc.Blocks) == 0 {
+		if c12ErrorWrapper(calleeName(&x.Call)) {
+			// errors.Join(err, ...), errors.Wrap(err, "..."): not nil when an error argument is not nil
+			args := append([]ssa.Value(nil), x.Call.Args...)
+			for _, a := range x.Call.Args {
+				// the elements of a variadic argument list written at the call
+				if sl, ok := a.(*ssa.Slice); ok {
+					for _, r := range c12Refs(sl.X) {
+						if ia, ok := r.(*ssa.IndexAddr); ok {
+							for _, r2 := range c12Refs(ia) {
+								if st, ok := r2.(*ssa.Store); ok && st.Addr == ia {
+									args = append(args, st.Val)
+								}
+							}
+						}
+					}
+				}
+			}
+			for _, a := range args {
+				if c12IsErrorType(a.Type()) && (c12NonNilDeep(a, depth+1) || (x.Block() != nil && knownNonNil(x.Block(), sameVal(a)))) {
+					return true
+				}
+			}
 			return false
 		}
-		n, all := 0, true
-		eachInstr(sc, func(i ssa.Instruction) {
-			if r, ok := i.(*ssa.Return); ok && idx < len(r.Results) && r.Parent() == sc {
-				n++
-				all = all && (c12NonNilDeep(r.Results[idx], depth+1) || knownNonNil(r.Block(), sameVal(r.Results[idx])))
+		// a repository function all of whose returns are not nil; a call through a function value or an interface:
+		// every function it can enter
+		ces := c12Callees(&x.Call)
+		for _, ce := range ces {
+			sc := ce.fn
+			n, all := 0, true
+			eachInstr(sc, func(i ssa.Instruction) {
+				if r, ok := i.(*ssa.Return); ok && idx < len(r.Results) && r.Parent() == sc {
+					n++
+					all = all && (c12NonNilDeep(r.Results[idx], depth+1) || knownNonNil(r.Block(), sameVal(r.Results[idx])))
+				}
+			})
+			if n == 0 || !all {
+				return false
 			}
-		})
-		return n > 0 && all
+		}
+		return len(ces) > 0
+	}
+	return false
+}
+
+// c12ErrorWrapper: a library function that hands back a non-nil error whenever it is given one.
+func c12ErrorWrapper(name string) bool {
+	switch c12BaseName(name) {
+	case "errors.Join", "github.com/pkg/errors.Wrap", "github.com/pkg/errors.Wrapf", "github.com/pkg/errors.WithStack",
+		"github.com/pkg/errors.WithMessage", "github.com/pkg/errors.WithMessagef", "github.com/hashicorp/go-multierror.Append":
+		return true
 	}
 	return false
 }
 
 // handUp: the function returns the value (a helper that parses and hands the block back): the obligation goes on
 // after each call site in the region.
-func (o *c12Obl) handUp(fn *ssa.Function, j, nres int, container bool, depth int) {
+func (o *c12Obl) handUp(fn *ssa.Function, j, nres int, container, item bool, depth int) {
 	if depth > 3 {
 		return
 	}
@@ -759,6 +1039,21 @@ func (o *c12Obl) handUp(fn *ssa.Function, j, nres int, container bool, depth int
 			continue
 		}
 		o.subs[key] = true
+		if container && item {
+			// a struct that carries the one block (`return accessItem{tag, block}, nil`): the caller has to store its
+			// block on every path, exactly as if the block had been handed back by itself
+			idx := j
+			if nres == 1 {
+				idx = -1
+			}
+			held0 := map[ssa.Value]bool{}
+			for _, v := range c12ResultValues(call, idx) {
+				held0[v] = true
+				o.member[v] = true
+			}
+			o.walk(call.Block(), instrIndex(call)+1, call, held0, call.Pos(), depth+1)
+			continue
+		}
 		if container {
 			// a list of blocks handed back (a first pass that parses, a second one that stores): whether the loop of
 			// the second pass runs is not decided on paths; the list has to be stored into the rule set somewhere
@@ -776,6 +1071,17 @@ func (o *c12Obl) handUp(fn *ssa.Function, j, nres int, container bool, depth int
 				o.exit(call.Pos(), "hands the list with the block to a caller that does not store it")
 			}
 			continue
+		}
+		idx := j
+		if nres == 1 {
+			idx = -1
+		}
+		used := false
+		for _, v := range c12ResultValues(call, idx) {
+			used = used || len(c12Refs(v)) > 0
+		}
+		if !used {
+			continue // this caller only validates the text (`if _, err := parseBlock(v); err != nil`), like a direct parse whose block is dropped
 		}
 		o.walk(call.Block(), instrIndex(call)+1, call, nil, call.Pos(), depth+1)
 	}
@@ -864,6 +1170,13 @@ func c12FlowsToBranch(w ssa.Value) bool {
 					}
 				}
 			case *ssa.Return:
+				if fn := y.Parent(); fn != nil && fn.Parent() != nil && len(gSites[fn]) == 0 && len(y.Results) == 1 {
+					if bt, ok := y.Results[0].Type().Underlying().(*types.Basic); ok && bt.Kind() == types.Bool {
+						// the verdict of a predicate handed to a library walk (slices.ContainsFunc(list, func(x) bool {...})):
+						// the walk branches on it
+						return true
+					}
+				}
 				work = append(work, c12ResultsAt(y, x)...)
 			case *ssa.Call:
 				work = append(work, y)
@@ -883,12 +1196,47 @@ func c12NewBuild(c *Ctx, rule string) (*c12Build, []*ssa.Function) {
 	if !c.need(rule, par, "route.Target.ProcessAccessRules") {
 		return nil, nil
 	}
-	reg := c12Region(c, par)
+	c12Cur = c
+	reg := c12BuildRegion(c, par)
 	b := &c12Build{c: c, inReg: map[*ssa.Function]bool{}, reach: map[ssa.Value]bool{}}
 	for _, f := range reg {
 		b.inReg[f] = true
 	}
 	return b, reg
+}
+
+// c12BuildRegion: the builder's region: c12Region(root) plus the repository functions of OTHER packages that the region
+// statically calls (a rule-set package of its own: `acl.Parse(text)`), each with its own region; root stays first.
+func c12BuildRegion(c *Ctx, root *ssa.Function) []*ssa.Function {
+	out := c12Region(c, root)
+	seen := map[*ssa.Function]bool{}
+	for _, f := range out {
+		seen[f] = true
+	}
+	for k, depth := 0, map[*ssa.Function]int{}; k < len(out) && len(out) < 400; k++ {
+		f := out[k]
+		if depth[f] >= 3 {
+			continue
+		}
+		eachInstr(f, func(i ssa.Instruction) {
+			cc := callCommon(i)
+			if cc == nil {
+				return
+			}
+			g, _ := c12CalleeOff(cc)
+			if g == nil || seen[g] || rootPkg(g) == rootPkg(f) {
+				return
+			}
+			for _, h := range c12Region(c, g) {
+				if !seen[h] {
+					seen[h] = true
+					depth[h] = depth[f] + 1
+					out = append(out, h)
+				}
+			}
+		})
+	}
+	return out
 }
 
 func runC12B1(c *Ctx) {
@@ -910,7 +1258,9 @@ func runC12B1(c *Ctx) {
 			return // not a block parse, or one that only validates the text
 		}
 		n++
-		o := &c12Obl{b: b, is: c12IdentClosure(seeds), subs: map[string]bool{}}
+		is := c12IdentClosure(seeds)
+		c12AddDerived(is)
+		o := &c12Obl{b: b, is: is, subs: map[string]bool{}, member: map[ssa.Value]bool{}}
 		o.walk(call.Block(), instrIndex(call)+1, call, nil, call.Pos(), 0)
 		key := fnKey(f) + "|every parsed block reaches the rule set"
 		if o.blown {
@@ -976,7 +1326,7 @@ func (o *c12Obl) failInstr(i ssa.Instruction, nn map[ssa.Value]bool, pos token.P
 			nn[x] = true
 		}
 	case *ssa.Call:
-		if _, _, isParse := c12TextParse(x); isParse {
+		if _, _, isParse := c12TextParse(x); isParse && !o.carrying {
 			return true
 		}
 		if cl, op := c12ClosesRules(x, 0); cl && !op {
@@ -986,6 +1336,7 @@ func (o *c12Obl) failInstr(i ssa.Instruction, nn map[ssa.Value]bool, pos token.P
 		return true
 	case *ssa.Return:
 		if c12ErrorReturn(x) || (len(x.Results) > 0 && nn[x.Results[len(x.Results)-1]]) {
+			o.errRets = append(o.errRets, x)
 			return true
 		}
 		if p := x.Pos(); p.IsValid() {
@@ -1013,6 +1364,7 @@ func runC12B2(c *Ctx) {
 	if b == nil {
 		return
 	}
+	root := reg[0]
 	n := 0
 	eachInstrOf(reg, func(f *ssa.Function, i ssa.Instruction) {
 		call, ok := i.(*ssa.Call)
@@ -1023,43 +1375,74 @@ func runC12B2(c *Ctx) {
 		if !isParse {
 			return
 		}
-		// the failure edges: the branches on `err != nil` / `ip == nil` of this call's result, here or - the result
-		// handed back by a helper - in a caller
-		subj := c12IdentClosure(c12ResultValues(call, errIdx))
 		name := c12BaseName(calleeName(&call.Call))
-		for _, g := range reg {
-			for _, blk := range g.Blocks {
-				for _, s := range blk.Succs {
-					fact, ok := c12EdgeFact(blk, s)
-					if !ok {
-						continue
-					}
-					x, cons := c12ConsOfFact(fact.Cond, fact.Truth)
-					if cons.kind != 'n' || !subj[x] || cons.eq != nilResult {
-						continue
-					}
-					// the start point: where the tested value came into being in this function
-					var start ssa.Instruction
-					switch d := x.(type) {
-					case *ssa.Extract:
-						start, _ = d.Tuple.(ssa.Instruction)
-					case ssa.Instruction:
-						start = d
-					}
-					if start == nil || start.Block() == nil {
-						continue
-					}
-					n++
-					o := &c12Obl{b: b, fail: true, subs: map[string]bool{}}
-					o.walkFrom(start, s, fact.Cond.Pos())
-					key := fnKey(g) + "|unparsable element fails the rule"
-					if len(o.exits) == 0 {
-						c.check("C12.B2", key, call.Pos(), true, "the failure edge of the parse ends in an error")
-						continue
-					}
-					for _, e := range o.exits {
-						c.check("C12.B2", key, e.pos, false,
-							"the text of a configured element was rejected by "+name+" at "+c.pos(call.Pos())+", and this path "+e.what+": the element is dropped and the rest of the list stays in force. For a deny list that is a list with a hole - the addresses the operator meant to block are admitted and forwarded; the failure must fail the whole rule (error => deny-all, F2)")
+		// the failure edges: the branches on `err != nil` / `ip == nil` of this call's result, here or - the result
+		// handed back by a helper - in a caller. A failing path that ends in `return ..., <error>` of a helper goes on at
+		// the branches on that error in the helper's callers, up to ProcessAccessRules itself (whose error F2 follows).
+		type subject struct {
+			is      map[ssa.Value]bool
+			nilFail bool
+			level   int
+		}
+		work := []subject{{c12IdentClosure(c12ResultValues(call, errIdx)), nilResult, 0}}
+		doneRet := map[*ssa.Return]bool{}
+		for len(work) > 0 {
+			sj := work[0]
+			work = work[1:]
+			for _, g := range reg {
+				for _, blk := range g.Blocks {
+					for _, s := range blk.Succs {
+						fact, ok := c12EdgeFact(blk, s)
+						if !ok {
+							continue
+						}
+						x, cons := c12ConsOfFact(fact.Cond, fact.Truth)
+						if cons.kind != 'n' || !sj.is[x] || cons.eq != sj.nilFail {
+							continue
+						}
+						// the start point: where the tested value came into being in this function
+						var start ssa.Instruction
+						switch d := x.(type) {
+						case *ssa.Extract:
+							start, _ = d.Tuple.(ssa.Instruction)
+						case ssa.Instruction:
+							start = d
+						}
+						if start == nil || start.Block() == nil {
+							continue
+						}
+						n++
+						o := &c12Obl{b: b, fail: true, subs: map[string]bool{}, member: map[ssa.Value]bool{}, failSubj: sj.is, failNil: sj.nilFail}
+						o.walkFrom(start, blk, s, x, fact.Cond.Pos())
+						key := fnKey(g) + "|unparsable element fails the rule"
+						for _, r := range o.errRets {
+							if doneRet[r] || r.Parent() == root || sj.level >= 4 || len(r.Results) == 0 {
+								continue
+							}
+							doneRet[r] = true
+							e := r.Results[len(r.Results)-1]
+							up := c12IdentClosure(c12ResultsAtIn(r, e, b.inReg))
+							used := false
+							for v := range up {
+								used = used || len(c12Refs(v)) > 0
+							}
+							if !used {
+								if c12CalledIn(r.Parent(), b.inReg) {
+									c.check("C12.B2", key, r.Pos(), false,
+										"the text of a configured element was rejected by "+name+" at "+c.pos(call.Pos())+" and "+fnKey(r.Parent())+" reports that with an error, but no caller in the region of ProcessAccessRules looks at that error: the element is dropped and the rest of the list stays in force; the failure must fail the whole rule (error => deny-all, F2)")
+								}
+								continue
+							}
+							work = append(work, subject{up, false, sj.level + 1})
+						}
+						if len(o.exits) == 0 {
+							c.check("C12.B2", key, call.Pos(), true, "the failure edge of the parse ends in an error")
+							continue
+						}
+						for _, e := range o.exits {
+							c.check("C12.B2", key, e.pos, false,
+								"the text of a configured element was rejected by "+name+" at "+c.pos(call.Pos())+", and this path "+e.what+": the element is dropped and the rest of the list stays in force. For a deny list that is a list with a hole - the addresses the operator meant to block are admitted and forwarded; the failure must fail the whole rule (error => deny-all, F2)")
+						}
 					}
 				}
 			}
@@ -1068,32 +1451,105 @@ func runC12B2(c *Ctx) {
 	c.atLeast("C12.B2", "failure edges of text parses (ParseCIDR / ParseIP ...) in the region of ProcessAccessRules", n, 1)
 }
 
+// c12ResultsAtIn: the values that receive result v of ret at the static call sites inside the region.
+func c12ResultsAtIn(ret *ssa.Return, v ssa.Value, inReg map[*ssa.Function]bool) []ssa.Value {
+	var out []ssa.Value
+	for _, w := range c12ResultsAt(ret, v) {
+		if in, ok := w.(ssa.Instruction); ok && in.Parent() != nil && inReg[in.Parent()] {
+			out = append(out, w)
+		}
+	}
+	return out
+}
+
+// c12CalledIn: fn has a static call site (whose value is used as a call) inside the region.
+func c12CalledIn(fn *ssa.Function, inReg map[*ssa.Function]bool) bool {
+	for _, s := range gSites[fn] {
+		if call, ok := s.(*ssa.Call); ok && call.Parent() != nil && inReg[call.Parent()] {
+			return true
+		}
+	}
+	return false
+}
+
 // walkFrom: like walk, entering block first (the target of the failure edge) with the parse as the start point. The
 // path's set holds the error values known to be non-nil on this path (`err = fmt.Errorf(...); break` ... `return err`).
-func (o *c12Obl) walkFrom(start ssa.Instruction, first *ssa.BasicBlock, pos token.Pos) {
+func (o *c12Obl) walkFrom(start ssa.Instruction, from, first *ssa.BasicBlock, tested ssa.Value, pos token.Pos) {
 	sb, si := start.Block(), instrIndex(start)+1
 	if !pos.IsValid() {
 		pos = start.Pos()
 	}
-	if first.Dominates(sb) {
-		o.exit(pos, "goes on to the next element")
-		return
-	}
 	type item struct {
-		b   *ssa.BasicBlock
-		nn  map[ssa.Value]bool
-		pos token.Pos
+		b     *ssa.BasicBlock
+		nn    map[ssa.Value]bool
+		pos   token.Pos
+		carry bool
 	}
-	seen := map[string]bool{c12HeldKey(first, nil): true}
-	stack := []item{{first, map[ssa.Value]bool{}, pos}}
+	seen := map[string]bool{}
+	var stack []item
+	// enter: the path takes the edge p -> s
+	enter := func(p, s *ssa.BasicBlock, nn0 map[ssa.Value]bool, pos token.Pos, carry bool) {
+		nn := c12CopyHeld(nn0)
+		carried := false
+		for _, in := range s.Instrs {
+			phi, ok := in.(*ssa.Phi)
+			if !ok {
+				break
+			}
+			if !c12IsErrorType(phi.Type()) {
+				continue
+			}
+			delete(nn, phi)
+			for k, q := range s.Preds {
+				if q == p && k < len(phi.Edges) && (nn0[phi.Edges[k]] || c12NonNilDeep(phi.Edges[k], 0)) {
+					nn[phi] = true
+					carried = true
+				}
+			}
+		}
+		if !carry && s.Dominates(sb) {
+			// control is back at (or before) the start point: the next element's turn - unless the failure travels with it,
+			// in a variable that lives across the elements (`if failed == nil { failed = err }; continue` ... `return failed`):
+			// then the walk goes on round the loop, and whatever is returned in the end must still be that error
+			for v := range nn0 {
+				if a, ok := v.(*ssa.Alloc); ok && c12Persistent(a, sb, si) {
+					carried = true
+				}
+				if _, ok := v.(*ssa.FreeVar); ok {
+					carried = true
+				}
+			}
+			if !carried {
+				o.exit(pos, "goes on to the next element")
+				return
+			}
+			carry = true
+		}
+		key := c12HeldKey(s, nn) + fmt.Sprint(carry)
+		if !seen[key] {
+			seen[key] = true
+			stack = append(stack, item{s, nn, pos, carry})
+		}
+	}
+	nn0 := map[ssa.Value]bool{}
+	if tested != nil && !o.failNil {
+		nn0[tested] = true
+	}
+	enter(from, first, nn0, pos, false)
 	for len(stack) > 0 {
 		it := stack[len(stack)-1]
 		stack = stack[:len(stack)-1]
 		if o.budget++; o.budget > 20000 {
 			return
 		}
+		o.carrying = it.carry
 		done := false
 		for _, in := range it.b.Instrs {
+			if v, ok := in.(ssa.Value); ok && it.carry {
+				if _, isPhi := in.(*ssa.Phi); !isPhi {
+					delete(it.nn, v) // computed anew for the next element: what was known of the last one's is gone
+				}
+			}
 			if done = o.instr(in, it.nn, sb, si, it.pos, 0); done {
 				break
 			}
@@ -1103,38 +1559,25 @@ func (o *c12Obl) walkFrom(start ssa.Instruction, first *ssa.BasicBlock, pos toke
 		}
 		for _, s := range it.b.Succs {
 			p := it.pos
+			nn := it.nn
 			if f, ok := c12EdgeFact(it.b, s); ok {
 				if o.pruned(f, nil) {
 					continue
+				}
+				if x, cons := c12ConsOfFact(f.Cond, f.Truth); cons.kind == 'n' && c12IsErrorType(x.Type()) {
+					if cons.eq && it.nn[x] {
+						continue // `if failed == nil` on a path on which failed holds the error
+					}
+					if !cons.eq {
+						nn = c12CopyHeld(it.nn)
+						nn[x] = true // `if failed != nil`: on this edge it is
+					}
 				}
 				if q := f.Cond.Pos(); q.IsValid() {
 					p = q
 				}
 			}
-			if s.Dominates(sb) {
-				o.exit(p, "goes on to the next element")
-				continue
-			}
-			nn := c12CopyHeld(it.nn)
-			for _, in := range s.Instrs {
-				phi, ok := in.(*ssa.Phi)
-				if !ok {
-					break
-				}
-				if !c12IsErrorType(phi.Type()) {
-					continue
-				}
-				for k, q := range s.Preds {
-					if q == it.b && k < len(phi.Edges) && (it.nn[phi.Edges[k]] || c12NonNilDeep(phi.Edges[k], 0)) {
-						nn[phi] = true
-					}
-				}
-			}
-			key := c12HeldKey(s, nn)
-			if !seen[key] {
-				seen[key] = true
-				stack = append(stack, item{s, nn, p})
-			}
+			enter(it.b, s, nn, p, it.carry)
 		}
 	}
 }
